@@ -101,6 +101,82 @@ func variadicElems(arg ssa.Value) []ssa.Value {
 	return out
 }
 
+// scatterReads recognises a helper that reads one word per destination pointer it is given
+// ("readUint64s(&e.UID, &e.Permissions)": for _, v := range dst { n, err := read(); *v = n }):
+// the fields read are those the call site lists, in that order.
+func scatterReads(call *ssa.Call, h *ssa.Function) ([]string, bool) {
+	for k, p := range h.Params {
+		st, isSlice := p.Type().Underlying().(*types.Slice)
+		if !isSlice || k >= len(call.Call.Args) {
+			continue
+		}
+		if _, isPtr := st.Elem().Underlying().(*types.Pointer); !isPtr {
+			continue
+		}
+		elems := variadicElems(call.Call.Args[k])
+		if len(elems) == 0 {
+			continue
+		}
+		var reads []*ssa.Call
+		other := false
+		instrs(h, func(_ *ssa.BasicBlock, _ int, ins ssa.Instruction) {
+			rc, ok := ins.(*ssa.Call)
+			if !ok {
+				return
+			}
+			switch callee(rc) {
+			case "(desync.reader).ReadUint64", "(desync.reader).ReadID":
+				reads = append(reads, rc)
+			case "(*desync.FormatDecoder).readString", "(*desync.FormatDecoder).readBytes", "io.LimitReader", "io.ReadFull", "(desync.reader).ReadN":
+				other = true
+			}
+		})
+		if len(reads) != 1 || other || !inLoop(reads[0].Block()) || constTrips(reads[0].Block()) > 0 {
+			continue
+		}
+		rc := reads[0]
+		// the word read is stored through the destination taken from the parameter
+		scattered := false
+		for _, r := range *rc.Referrers() {
+			ex, ok := r.(*ssa.Extract)
+			if !ok || ex.Index != 0 || ex.Referrers() == nil {
+				continue
+			}
+			for _, r2 := range *ex.Referrers() {
+				sto, ok := r2.(*ssa.Store)
+				if !ok || sto.Val != ssa.Value(ex) {
+					continue
+				}
+				if ld, ok := sto.Addr.(*ssa.UnOp); ok && ld.Op == token.MUL {
+					if ia, ok := ld.X.(*ssa.IndexAddr); ok && ia.X == ssa.Value(p) {
+						scattered = true
+					}
+				}
+			}
+		}
+		if !scattered {
+			continue
+		}
+		prefix := ""
+		if callee(rc) == "(desync.reader).ReadID" {
+			prefix = "id:"
+		}
+		var toks []string
+		for _, e := range elems {
+			tok := ""
+			if fa, ok := e.(*ssa.FieldAddr); ok {
+				f := fieldOf(fa)
+				if i := strings.Index(f, "."); i >= 0 {
+					tok = f[i+1:]
+				}
+			}
+			toks = append(toks, prefix+tok)
+		}
+		return toks, true
+	}
+	return nil, false
+}
+
 // region returns the blocks dominated by block b.
 func region(fn *ssa.Function, b *ssa.BasicBlock) map[*ssa.BasicBlock]bool {
 	out := map[*ssa.BasicBlock]bool{}
@@ -325,6 +401,12 @@ func (c *Ctx) codec() *codecTables {
 							}
 						}
 						if h := call.Call.StaticCallee(); h != nil && newHelpers[h] && h.Blocks != nil && depth < 3 {
+							if toks, isScatter := scatterReads(call, h); isScatter {
+								for _, tk := range toks {
+									add(tk)
+								}
+								continue
+							}
 							hb := map[*ssa.BasicBlock]bool{}
 							for _, x := range h.Blocks {
 								hb[x] = true
